@@ -151,6 +151,8 @@ pub proof fn lemma_image_rebase(file: Seq<u8>, phs: Seq<ProgramHeader>, b: u64)
     }
 }
 
+pub proof fn lemma_same<T>(a: T, b: T) requires a == b {}
+
 /// permission arithmetic: or-ing the selected flag constants into NONE gives the sum of the selected bits
 pub proof fn lemma_perm_bits(r: bool, w: bool, x: bool)
     ensures
